@@ -403,6 +403,7 @@ pub fn all() -> Vec<CheckDef> {
                 Family { enumerate: None, variant: "", name: "thread-lifecycles", strategy: |_| tls::strategy(), cases: |t| t.pick(30_000, 300_000) },
                 Family { enumerate: None, variant: "da", name: "thread-lifecycles-debug-assertions", strategy: |_| tls::strategy(), cases: |t| t.pick(20_000, 200_000) },
                 Family { enumerate: None, variant: "", name: "large-collection-released-inside-destructor", strategy: tls::pile_up_strategy, cases: |t| t.pick(48, 320) },
+                Family { enumerate: None, variant: "", name: "destructor-collects-after-handle-is-gone", strategy: tls::teardown_collects_strategy, cases: |t| t.pick(320, 3_200) },
             ],
             exec: tls::exec,
             rule: "a short-lived thread with up to three thread-local objects initialised in a generated order relative to circ's participant handle (so that their destructors run before or after the handle's), each destructor performing a generated list of API actions (pin, nested pin, flush, drop Rc/Weak, new+drop, chains, upgrade, load/store/swap on a shared cell, collection rounds, reactivate), a generated body, 0..130 deferrals pending at exit, and threads that first use the library inside a destructor; a family in which a destructor releases 2^10..2^20 pointers after the handle is gone and an ordinary thread (256 KiB / 512 KiB / 2 MiB / main stack) collects afterwards. Oracle: join() returns Ok, no crash, and the surviving thread's collection rounds destruct and free every object the thread created. Non-trivial = at least one API action ran in a destructor after the thread's participant handle had been destroyed; distinct = distinct hash of the case",
